@@ -14,7 +14,7 @@ BUILTINS = {'len', 'ord', 'chr', 'int', 'float', 'str', 'callable', 'isinstance'
             'IndexError', 'ValueError', 'TypeError', 'KeyError'}
 SPEC_FORMS = {'old', 'forall', 'exists', 'implies', 'holds', 'fresh', 'iff', 'ite', 'kind_is',
               'same_str', 'allocated', 'unchanged', 'owned', 'chars_hold', 'numshape',
-              'has', 'at', 'mget', 'forall_keys', 'same'}
+              'has', 'at', 'mget', 'forall_keys', 'same', 'total_len'}
 
 LIST_MUTATORS = {'append', 'pop', 'clear', 'insert', 'extend', 'sort', 'reverse', 'remove'}
 
@@ -355,6 +355,8 @@ class Exec(Engine):
         if isinstance(v, (VMap, VAny)):
             if name in ('get', 'update', 'keys', 'values', 'items', 'copy', 'pop', 'setdefault'):
                 return [(st, VFn(('dictmethod', v, name)))]
+            if isinstance(v, VAny) and name == 'split':
+                return [(st, VFn(('external', 'regex.split')))]
             if st.spec:
                 return [(st, VAny())]
             raise Unsupported('attribute %r of an opaque value' % name, node)
@@ -574,6 +576,9 @@ class Exec(Engine):
             self.fresh_list_contents(st, new)
             st.assume(self.list_len(st, new) == la + lb)
             return [(st, new)]
+        if (isinstance(a, VAny) or isinstance(b, VAny)) and not isinstance(a, VNone) and not isinstance(b, VNone):
+            self.note('configuration data: arithmetic / repetition on an option value is assumed well-typed (opaque result)')
+            return [(st, VAny())]
         if isinstance(a, VNone) or isinstance(b, VNone):
             self.prove(st, FALSE, 'aorte', node, 'TypeError: unsupported operand type(s) for %s: %s and %s: %s'
                        % (type(op).__name__, a.kind, b.kind, ast.unparse(node)))
